@@ -4,14 +4,15 @@ package main
 //
 // Kinds:
 //
-//	pypi_record  (root universe)  Go only. Resolves on the real LocalClient, (a) raw, several
+//	pypi_record  (universe (root...))  Go only, one case per universe. Resolves on the real LocalClient, (a) raw, several
 //	             times on fresh clients, (b) through a RECORDING client that logs every answer
 //	             at call time (the resolver no longer writes to the client's slices since the
 //	             repair of F-C05-1, so the answers are handed on as they are). Returns the
 //	             observables of both, the recorded table, the semver/marker oracle tables the
 //	             model needs, and the universe-level answers the direct oracle needs.
-//	pypi         (root table oracles)  both sides. Go runs the real resolver against a client
-//	             that answers from the table only; the model resolves against the same table.
+//	pypi         (oracles ((root table)...))  both sides, one case per universe. Go runs the real
+//	             resolver against a client that answers from the table only; the model resolves
+//	             against the same table.
 //
 // Shapes: vk = (name vtype version); req = (name vtype version typedump);
 // typedump = ((key value)...) as in attr.go; an answer is (1 (items...)) or (0) for an error.
@@ -426,29 +427,106 @@ func pyOracles(u pyUniverse) (oracles sx.V, direct sx.V) {
 	return sx.L(sx.L(mk...), sx.L(cons...), sx.L(prem...), sx.L(vlt...)), sx.L(dir...)
 }
 
+// canonObs sorts what came out of maps: the nodes after the root and the edges.
+func canonObs(o sx.V) sx.V {
+	if o.Kind != 2 || len(o.L) != 5 || o.L[0].Kind != 1 || o.L[0].B != "ok" {
+		return o
+	}
+	nodes := append([]sx.V(nil), o.L[1].L...)
+	if len(nodes) > 1 {
+		rest := nodes[1:]
+		sort.Slice(rest, func(i, j int) bool { return rest[i].String() < rest[j].String() })
+	}
+	edges := append([]sx.V(nil), o.L[2].L...)
+	sort.Slice(edges, func(i, j int) bool { return edges[i].String() < edges[j].String() })
+	return sx.L(o.L[0], sx.L(nodes...), sx.L(edges...), o.L[3], o.L[4])
+}
+
+func tableWF(rc *recClient) bool {
+	for _, e := range rc.versions {
+		if e.val.Nth(0).Int() == 1 {
+			for _, v := range e.val.Nth(1).List() {
+				if v.Nth(0).Str() != e.key.Str() {
+					return false
+				}
+			}
+		}
+	}
+	for _, e := range rc.matching {
+		if e.val.Nth(0).Int() == 1 {
+			for _, v := range e.val.Nth(1).List() {
+				if v.Nth(0).Str() != e.key.Nth(0).Str() {
+					return false
+				}
+			}
+		}
+	}
+	for _, e := range rc.requirements {
+		if e.val.Nth(0).Int() == 1 {
+			for _, r := range e.val.Nth(1).List() {
+				if r.Nth(1).Int() != int64(resolve.Requirement) {
+					return false
+				}
+			}
+		}
+	}
+	return true
+}
+
 func init() {
+	// (universe (root...)) -> (markers direct ((rec rawdiffers rawobs nondet inconsistent wf rejected)...) modelcase)
 	register("pypi_record", func(a sx.V) sx.V {
-		root := sxVK(a.Nth(0))
-		u := pyUniverse{a.Nth(1)}
-		// (a) raw LocalClient, fresh per run
-		var raws []sx.V
-		for i := 0; i < 3; i++ {
-			raws = append(raws, pyResolve(u.client(), root))
-		}
-		// (b) recording client
-		rc := &recClient{inner: u.client(), seen: map[string]string{}}
-		rec := pyResolve(rc, root)
-		table := sx.L(entriesSx(rc.versions), entriesSx(rc.requirements), entriesSx(rc.matching))
+		u := pyUniverse{a.Nth(0)}
 		oracles, direct := pyOracles(u)
-		return sx.L(rec, sx.L(raws...), table, oracles, direct, sx.Bool(rc.inconsistent))
-	})
-	register("pypi", func(a sx.V) sx.V {
-		root := sxVK(a.Nth(0))
-		tc := newTabClient(a.Nth(1))
-		obs := pyResolve(tc, root)
-		if tc.missing > 0 {
-			return sx.L(sx.Sym("missing"))
+		var per, cases []sx.V
+		for _, rv := range a.Nth(1).List() {
+			root := sxVK(rv)
+			// (a) raw LocalClient, fresh per run
+			var raws []sx.V
+			for i := 0; i < 2; i++ {
+				raws = append(raws, canonObs(pyResolve(u.client(), root)))
+			}
+			nondet := raws[1].String() != raws[0].String()
+			// (b) recording client
+			rc := &recClient{inner: u.client(), seen: map[string]string{}}
+			rec := canonObs(pyResolve(rc, root))
+			table := sx.L(entriesSx(rc.versions), entriesSx(rc.requirements), entriesSx(rc.matching))
+			rawDiffers := raws[0].String() != rec.String()
+			rawObs := sx.L()
+			if rawDiffers || nondet {
+				rawObs = sx.L(raws...)
+			}
+			// versions whose requirements were asked for but that are not in the graph
+			rejected := 0
+			if rec.Kind == 2 && len(rec.L) == 5 {
+				in := map[string]bool{}
+				for _, n := range rec.L[1].L {
+					in[n.String()] = true
+				}
+				for _, e := range rc.requirements {
+					if !in[e.key.String()] {
+						rejected++
+					}
+				}
+			}
+			per = append(per, sx.L(rec, sx.Bool(rawDiffers), rawObs, sx.Bool(nondet), sx.Bool(rc.inconsistent),
+				sx.Bool(tableWF(rc)), sx.Int(rejected)))
+			cases = append(cases, sx.L(rv, table))
 		}
-		return obs
+		return sx.L(oracles.Nth(0), direct, sx.L(per...), sx.B(sx.L(oracles, sx.L(cases...)).String()))
+	})
+	// (oracles ((root table)...)) -> (obs...)
+	register("pypi", func(a sx.V) sx.V {
+		var out []sx.V
+		for _, c := range a.Nth(1).List() {
+			root := sxVK(c.Nth(0))
+			tc := newTabClient(c.Nth(1))
+			obs := canonObs(pyResolve(tc, root))
+			if tc.missing > 0 {
+				obs = sx.L(sx.Sym("missing"))
+			}
+			out = append(out, obs)
+		}
+		return sx.L(out...)
 	})
 }
